@@ -26,6 +26,8 @@ Three ties + oracles (all oracles are model-free, on observations of the real co
 (c) preserve_context alone: identity without a current action, pass-through, second call; the race on one
     callable is `_once.run_once_race` (line-level scheduler, real threads, model Driver/Once.lean).
 """
+import contextvars
+import copy
 import io
 import json
 import re
@@ -53,7 +55,8 @@ RULE = ("(a) levels: length 0..8 (sometimes 50..300), components drawn from {0, 
         "uuid4-shaped, printable ASCII without '@', a few non-ASCII; malformed level / id strings over the alphabet '/0-9 +-_x@' plus "
         "fixed corner cases. (b) programs: 1-2 origin trees, nested with-blocks (depth <= 3), failing blocks, hand-offs at any point of any "
         "action, chains of <= 4 hops, several ids per action, each used once, bytes/text, continue_task/preserve_context, remote thread "
-        "joined at once or at the very end (real concurrency with the origin), file/list destinations; 40% of the programs with a second, failing "
+        "joined at once or at the very end (real concurrency with the origin), or the remote side invoked inline inside the originating action, or "
+        "in a thread running in a copy of the originating context (copy_context().run, as asyncio.to_thread does); file/list destinations; 40% of the programs with a second, failing "
         "destination (mask of 1-3 calls, one of them the end/start message of a continued action or the end of a local one; hand-offs of those "
         "programs run one after the other so that the mask denotes the same messages in the model run); merge orders: both concatenations, "
         "perfect interleave, 20 (quick) / 500 for the first 80 programs and 12 for the others (thorough) seeded shuffles per program; non-trivial = >= 2 hops or >= 2 ids from one action "
@@ -410,7 +413,8 @@ class Gen:
         via = "preserve" if rng.random() < 0.35 else "continue"
         return dict(op="handoff", y=y, via=via, form=rng.choice(["bytes", "text"]),
                     atype=(rng.choice([None, "app:remote"]) if via == "continue" else None),
-                    join=rng.choice(["now", "end"]), side=self.side(hops_left - 1), **{"raise": self.maybe_raise(0.25)})
+                    join=rng.choice(["now", "end"]), call=rng.choice(["thread", "thread", "thread", "inline", "ctxcopy"]),
+                    side=self.side(hops_left - 1), **{"raise": self.maybe_raise(0.25)})
 
     def block(self, depth, hops_left):
         rng = self.rng
@@ -603,7 +607,7 @@ def do_handoff(rt, side, s):
     from eliot._action import TooManyCalls
 
     child = rt.new_side(s["side"]["dest"], side.i)
-    rec = dict(y=s["y"], origin=side.i, origin_start=side.stack[-1], remote=child.i, via=s["via"], form=s["form"],
+    rec = dict(y=s["y"], origin=side.i, origin_start=side.stack[-1], remote=child.i, via=s["via"], form=s["form"], call=s.get("call", "thread"),
                atype=s["atype"] or "eliot:remote_task", id=None, exp_raise=s.get("raise"))
     rt.recs.append(rec)
     body = s["side"]["body"]
@@ -657,8 +661,22 @@ def do_handoff(rt, side, s):
                 child.second = "TooManyCalls"
             except BaseException as e:  # noqa
                 child.second = type(e).__name__
-    if rt.deferred:
+    call = s.get("call", "thread")
+    if call == "inline":
+        # run synchronously where the id was taken (an inline executor, a callback invoked at once): the originating
+        # action is the current action while the remote side runs; it still logs to its own destination
+        prev = rt.tls.side
+        try:
+            rt.side_main(child, target)
+        finally:
+            rt.tls.side = prev
+    elif rt.deferred:
         rt.queue.append((child, target))  # the id is handed over now, the remote side runs after the origin is done
+    elif call == "ctxcopy":
+        # what asyncio.to_thread / run_in_executor(copy_context().run, ..) do: another thread, but in a copy of the
+        # submitting context, so the originating action is current there too
+        c = contextvars.copy_context()
+        rt.spawn(child, lambda: c.run(target), s["join"] == "now")
     else:
         rt.spawn(child, target, s["join"] == "now")
 
@@ -735,7 +753,12 @@ def make_flaky(prog, rng):
     of such a program run one after the other (`deferred`: the remote sides run, each in its own thread, after
     the origin trees are done, in hand-over order) and the same mask means the same messages in the model run.
     The call numbers of interest are taken from a run in which the destination does not fail yet."""
-    prog = dict(prog, deferred=True, flaky=[])
+    prog = dict(copy.deepcopy(prog), deferred=True, flaky=[])
+    for t in prog["trees"]:
+        for h, _, _ in handoffs_of(t["side"]["body"]):
+            if h.get("call") == "ctxcopy":
+                # the copied context would outlive the origin action; the model run has no such context
+                h["call"] = "thread"
     dry = run_program(prog)
     calls = dry["flaky_calls"]
     if not calls:
@@ -899,6 +922,11 @@ def oracle_program(prog, obs, rng, nshuffles, stats=None):
         reserved[r["y"]] = (ou, lv)
         for m in rl:
             ml = m.get("task_level")
+            if r.get("call") == "inline" and m.get("message_type") == REPORT and m.get("task_uuid") == ou and isinstance(ml, list) \
+                    and ml[:len(lv)] != lv:
+                # run inline, the enclosing context of the remote action is the originating action: the report of a destination
+                # that failed on the remote action's start / end message belongs there, though it is logged during the call
+                continue
             if m.get("task_uuid") != ou or not isinstance(ml, list) or len(ml) <= len(lv) or ml[:len(lv)] != lv:
                 bad.append(("hand-off %d (%s, id as %s): remote message at (%s, %s) is not below the reserved place (%s, %s)" % (
                     r["y"], r["via"], r["form"], m.get("task_uuid"), ml, ou, lv), dict(kind="remote-misplaced", via=r["via"])))
@@ -1010,8 +1038,8 @@ def seq_block(block, queue=None):
             out.append(seq_with(dict(op="with", task=False, spec=dict(atype=s["atype"], fields=[], sers=None)), s["body"], s.get("raise"), queue))
         elif s["op"] == "handoff":
             out.append(dict(op="serializeAs", y=s["y"], x=None))
-            if queue is None:
-                out.append(seq_continue(s, None))
+            if queue is None or s.get("call") == "inline":
+                out.append(seq_continue(s, queue))
             else:
                 queue.append(s)
     return out
@@ -1107,6 +1135,7 @@ def run_handoffs(ctx):
                                                             ("report" if c[2] == REPORT else (c[1] or "message")) for c in hit})
         else:
             tags.append("flaky:none")
+        tags += sorted({"call:" + h[0].get("call", "thread") + "/" + h[0]["via"] for h in hs})
         tags += sorted({"via:" + h[0]["via"] for h in hs} | {"form:" + h[0]["form"] for h in hs} | {"join:" + h[0]["join"] for h in hs}
                        | {"dest:" + s["kind"] for s in obs["sides"]})
         # thorough: 500 shuffles for the first 80 programs, 12 for the rest (20 min budget; one parse ~ 10 ms)
@@ -1209,10 +1238,25 @@ def preserve_case(case):
                 g = eliot.preserve_context(f)
                 o["identity"] = g is f
                 return
-            with eliot.start_action(action_type="app:p"):
-                gs = [eliot.preserve_context(f) for _ in range(case["n"])]
-            o["identity"] = any(g is f for g in gs)
+            how = case.get("how") or ("thread" if case.get("thread") else "fresh")
             outs = []
+            gs = []
+
+            def invoke_all():
+                for g in gs:
+                    if how == "thread":
+                        t = threading.Thread(target=call, args=(g,), daemon=True)
+                    elif how == "ctxcopy":
+                        t = threading.Thread(target=contextvars.copy_context().run, args=(call, g), daemon=True)
+                    else:
+                        t = None
+                    if t is not None:
+                        t.start()
+                        t.join(TIMEOUT)
+                    elif how == "inline":
+                        call(g)
+                    else:
+                        contextvars.Context().run(call, g)
 
             def call(g):
                 res = []
@@ -1226,13 +1270,14 @@ def preserve_case(case):
                         res.append("exc" if e is exc else "raised:" + type(e).__name__)
                 outs.append(res)
 
-            for g in gs:
-                if case["thread"]:
-                    t = threading.Thread(target=call, args=(g,), daemon=True)
-                    t.start()
-                    t.join(TIMEOUT)
-                else:
-                    contextvars.Context().run(call, g)
+            with eliot.start_action(action_type="app:p"):
+                gs += [eliot.preserve_context(f) for _ in range(case["n"])]
+                if how in ("inline", "ctxcopy"):
+                    # the originating action is the current action where the callable runs
+                    invoke_all()
+            o["identity"] = any(g is f for g in gs)
+            if how not in ("inline", "ctxcopy"):
+                invoke_all()
             o["outs"] = outs
             o["calls"] = calls
             o["levels"] = sorted(m.get("task_level") for m in msgs)
@@ -1277,14 +1322,14 @@ def oracle_preserve(case, o):
 
 def run_preserve(ctx):
     rng = ctx.rng("preserve")
-    cases = [dict(kind="preserve", in_action=False, exc=False, n=1, calls=1, thread=False, args=[], kwargs={})]
+    cases = [dict(kind="preserve", in_action=False, exc=False, n=1, calls=1, how="fresh", args=[], kwargs={})]
     for _ in range(ctx.budget(40, 600)):
         cases.append(dict(kind="preserve", in_action=rng.random() < 0.9, exc=rng.random() < 0.4, n=rng.randint(1, 4), calls=rng.randint(1, 3),
-                          thread=rng.random() < 0.6, args=[rng.randint(0, 9) for _ in range(rng.randint(0, 2))],
+                          how=rng.choice(["thread", "thread", "fresh", "inline", "ctxcopy"]), args=[rng.randint(0, 9) for _ in range(rng.randint(0, 2))],
                           kwargs={k: rng.randint(0, 9) for k in rng.sample(["a", "b"], rng.randint(0, 2))}))
     for c in cases:
         o = preserve_case(c)
-        ctx.case(c, nontrivial=c["in_action"] and (c["n"] >= 2 or c["calls"] >= 2), tags=["preserve:" + ("action" if c["in_action"] else "no-action")])
+        ctx.case(c, nontrivial=c["in_action"] and (c["n"] >= 2 or c["calls"] >= 2), tags=["preserve:" + ("action" if c["in_action"] else "no-action"), "preserve-call:" + c["how"]])
         for b in oracle_preserve(c, o):
             ctx.violation(b, dict(c, observed=o), key=None)
 
